@@ -7,6 +7,6 @@ func init() {
 	gens["C01"] = func(o *out) {
 		o.pins("internal/core/adt", "nodeContext.scheduleVertexConjuncts", "nodeContext.insertArc",
 			"nodeContext.shareIfPossible", "nodeContext.unshare", "appendDisjunct", "Vertex.updateArcType",
-			"nodeContext.checkTypos", "nodeContext.addResolver")
+			"nodeContext.checkTypos", "nodeContext.addResolver", "processListLit")
 	}
 }
